@@ -292,7 +292,7 @@ def check_function(ctx, f: FuncInfo, rule: str = "R-TWIN") -> tuple[int, int]:
                 cands = []
                 for c, e in eager_calls:
                     emf = _module_func_name(c.func)
-                    if emf and emf[0] in EAGER_MODULES and emf[1] == mf[1]:
+                    if emf and (emf[0] in EAGER_MODULES or emf[0].startswith("xp")) and emf[1] == mf[1]:
                         cands.append((c, e))
                 if len(cands) == 1:
                     partner, elocal = cands[0]
